@@ -29,7 +29,9 @@ type c18Case struct {
 	Tree     fsmodel.Tree `json:"tree"`
 	Requests []string     `json:"requests"`
 	Transfer bool         `json:"transfer,omitempty"`
-	Disk     bool         `json:"disk,omitempty"` // differential: on-disk FS vs the in-memory one
+	// DiskTransfer: the end-to-end transfer reads the tree from disk instead of from memory
+	DiskTransfer bool `json:"disktransfer,omitempty"`
+	Disk         bool `json:"disk,omitempty"` // differential: on-disk FS vs the in-memory one
 }
 
 func (c c18Case) String() string {
@@ -342,7 +344,21 @@ func judgeC18Raw(c c18Case) (string, string) {
 func c18Transfer(c c18Case, inc []string) (string, string) {
 	dst := scratch.Dir("follow")
 	defer scratch.Remove(dst)
-	view, err := fsutil.NewFilterFS(memfs.New(c.Tree), &fsutil.FilterOpt{FollowPaths: c.Requests, IncludePatterns: inc})
+	var base fsutil.FS = memfs.New(c.Tree)
+	if c.DiskTransfer {
+		// the same through the on-disk walker (its own inode table: names of one inode, symlinks included)
+		sd := scratch.Dir("followsrc")
+		defer scratch.Remove(sd)
+		if err := fsmodel.Materialize(c.Tree, sd); err != nil {
+			return "infra", err.Error()
+		}
+		d, err := fsutil.NewFS(sd)
+		if err != nil {
+			return "infra", err.Error()
+		}
+		base = d
+	}
+	view, err := fsutil.NewFilterFS(base, &fsutil.FilterOpt{FollowPaths: c.Requests, IncludePatterns: inc})
 	if err != nil {
 		return "view-failed", err.Error()
 	}
@@ -544,6 +560,37 @@ func runC18(r *evid.Run) {
 			cases = append(cases, c18Case{Tree: dot, Requests: l, Transfer: len(l) == 1})
 		}
 		trees = append(trees, dot)
+	}
+	// symlinks that have several names (hardlink(1), cp -al, ostree): requested through each of their names, from disk
+	{
+		T := fsmodel.T0
+		hl := fsmodel.Tree{{Path: "data", Kind: fsmodel.Dir, Perm: 0755, Mtime: T}, {Path: "data/real", Kind: fsmodel.File, Perm: 0644, Mtime: T, Data: []byte("real")},
+			{Path: "links", Kind: fsmodel.Dir, Perm: 0755, Mtime: T}, {Path: "links/a", Kind: fsmodel.Symlink, Perm: 0777, Mtime: T, Link: "../data/real", HL: 1},
+			{Path: "links/b", Kind: fsmodel.Symlink, Perm: 0777, Mtime: T, Link: "../data/real", HL: 1}, {Path: "z", Kind: fsmodel.Symlink, Perm: 0777, Mtime: T, Link: "../data/real", HL: 1},
+			{Path: "other", Kind: fsmodel.File, Perm: 0644, Mtime: T, Data: []byte("o")}}
+		hl.Sort()
+		for _, l := range [][]string{{"links/b"}, {"links/a", "links/b"}, {"links/*"}, {"links"}, {"links/b", "links/a"}} {
+			cases = append(cases, c18Case{Tree: hl, Requests: l, Transfer: true, DiskTransfer: true})
+		}
+	}
+	// wildcard requests whose directory part begins with dots (.cfg/l*, ..data/*): the directory that is listed is named
+	// exactly as requested
+	{
+		T := fsmodel.T0
+		dd := func(p string) fsmodel.Node { return fsmodel.Node{Path: p, Kind: fsmodel.Dir, Perm: 0755, Mtime: T} }
+		ff := func(p string) fsmodel.Node {
+			return fsmodel.Node{Path: p, Kind: fsmodel.File, Perm: 0644, Mtime: T, Data: []byte(p)}
+		}
+		ln := func(p, t string) fsmodel.Node {
+			return fsmodel.Node{Path: p, Kind: fsmodel.Symlink, Perm: 0777, Mtime: T, Link: t}
+		}
+		dt := fsmodel.Tree{dd(".cfg"), ln(".cfg/l1", "../real/one"), ln(".cfg/l2", "../real/two"), ff(".cfg/plain"), dd("..data"), ln("..data/k", "../real/one"), dd("cfg"), ff("cfg/decoy"),
+			dd("data"), ff("data/decoy"), dd("real"), ff("real/one"), ff("real/two"), dd(".github"), dd(".github/workflows"), ln(".github/workflows/ci.yml", "../../real/two")}
+		dt.Sort()
+		for _, l := range [][]string{{".cfg/l*"}, {".cfg/*"}, {"..data/*"}, {".github/workflows/*.yml"}, {".*/l1"}, {".cfg/l1"}, {"..data/k", ".cfg/l*"}, {".github/*/ci.yml"}} {
+			cases = append(cases, c18Case{Tree: dt, Requests: l, Transfer: len(l) == 1})
+		}
+		trees = append(trees, dt)
 	}
 	// entries whose own names contain pattern metacharacters, as links and as plain entries: a name that a wildcard
 	// matched is a name, not a pattern
